@@ -889,6 +889,24 @@ fn main() {
             rep.case("generated_files_are_lexically_wellformed", &format!("project=mapped mode={}", mode), &|| lexical_wellformed(res.as_ref().map_err(|e| e.clone())?));
         }
     }
+    // ============================================================ C07 (known finding): tuple structs are project-defined serde structs too
+    {
+        let src = format!("{}#[derive(Serialize, Deserialize, Clone)]\npub struct Wrapper(pub String);\n#[derive(Serialize, Deserialize, Clone)]\npub struct Pair(pub u32, pub String);\n\
+            #[derive(Serialize, Deserialize, Clone)]\npub struct Holder {{ pub w: Wrapper, pub p: Vec<Pair> }}\n#[tauri::command]\npub fn hold(h: Holder) -> u32 {{ 0 }}\n", HDR);
+        let dir = root.join("tuple_structs/src");
+        write_files(&dir, &[("lib.rs".to_string(), src)]);
+        for mode in ["none", "zod"] {
+            let files = generate(&dir, &root.join(format!("tuple_structs/out_{}", mode)), mode);
+            rep.case("reachable_tuple_structs_are_declared", &format!("project=tuple_structs mode={}", mode), &|| {
+                let files = files.as_ref().map_err(|e| e.clone())?;
+                let exp = exports_of(files.get("types.ts").ok_or("no types.ts")?);
+                for n in ["Holder", "Wrapper", "Pair"] {
+                    if !exp.contains(n) && !exp.contains(&format!("{}Schema", n)) { return Err(format!("{} is a serde struct reachable from command `hold` but types.ts does not declare it", n)); }
+                }
+                Ok("ok".into())
+            });
+        }
+    }
     let _ = fs::remove_dir_all(&root);
     rep.finish()
 }
